@@ -204,7 +204,22 @@ def _c09_loops(o, driver, rng):
     o.monitor_stats["loop_traces_monitored"] = res["traces"]
 
 
-PROPERTIES["C09"] = {"run": _sched(_mon("C09"), extra=_c09_loops), "assumptions": SCHED_ASSUME}
+def _c09_replay(o, driver, rng):
+    """Replay the listed witness of finding C09-shift-carries-substep on the implementation (and, through the correspondence, on the model)."""
+    import common, sched_corr as scorr, monitors_sched as ms
+    for f in common.known_findings()["findings"]:
+        if f["property"] == "C09" and f["id"] == "C09-shift-carries-substep":
+            w = f["witness"]
+            sc = scorr.normalise(w["scenario"])
+            outcome, c = scorr.run_impl(sc, w["schedule_seed"])
+            o.monitor_stats["known_finding_replays"] = o.monitor_stats.get("known_finding_replays", 0) + 1
+            for v in ms.mon_c09(sc, c, outcome):
+                o.violations.append({**v, "scenario": w["scenario"], "schedule_seed": w["schedule_seed"]})
+
+
+PROPERTIES["C09"] = {"run": _sched(_mon("C09"), extra=_both(_c09_loops, _c09_replay)), "assumptions": SCHED_ASSUME + [
+    "the guard is a theorem about sub-step INDICES (guard_fires / guard_only_then); that an index stands for that many iterations within the time step fails for "
+    "time-shifted trigger connections inside a group (known finding C09-shift-carries-substep); the monitor counts iterations within the time step"]}
 def _c10_rt(o, driver, rng):
     """lazy_stepping in real-time mode (rt_factor given; virtual clock): the run-ahead bound is the same as without a clock."""
     import sched_corr as scorr
